@@ -519,6 +519,21 @@ fn scale_programs(rep: &Report) {
         let args: Vec<String> = (0..300).map(|k| format!("{}", k)).collect();
         progs.push(("many-macro-parameters", format!("macro wide({}) -> mov ax,pz0 mov bx,pz299 mov cx,pz256 <-\nstart:\nwide({})\nmov si, 7\n", params.join(","), args.join(","))));
     }
+    // run-time state the assembler cannot know: a RET with nothing to return to is an error of the program, to be
+    // reported as such -- not a line "that should have been refused" (these programs end at the RET: `si` is set before it)
+    for (k, t) in [
+        "start:\nmov si, 7\nret\nmov bx, 2\n",
+        "def f { inc ax }\nstart:\nmov si, 7\njmp inside\ndef g {\ninside: inc bx\n}\n",
+        "def f { inc ax }\nstart:\ncall f\nmov si, 7\nret\n",
+        "def f {\nmov si, 7\nret\nret\n}\nstart:\ncall f\n",
+        "macro leave(_) -> ret <-\nstart:\nmov si, 7\nleave(_)\n",
+    ]
+    .iter()
+    .enumerate()
+    {
+        let _ = k;
+        progs.push(("ret-without-call", t.to_string()));
+    }
     let n = progs.len();
     par_for(n, 1, |i| {
         let (family, text) = &progs[i];
@@ -537,7 +552,7 @@ fn scale_programs(rep: &Report) {
             return;
         }
         rep.count("large accepted programs that were executed", 1);
-        let ended = parsed.recs.last().map(|r| r.line == "hlt" && r.regs[crate::ref8086::SI] == 7).unwrap_or(false);
+        let ended = parsed.recs.last().map(|r| (r.line == "hlt" || *family == "ret-without-call") && r.regs[crate::ref8086::SI] == 7).unwrap_or(false);
         let sym = if plain.contains("Internal Error") {
             Some("internal-error")
         } else if !out.clean_exit() {
